@@ -11,7 +11,10 @@ from common import ToolError
 MACROS = ("info", "warn", "error")
 
 TARGET_TEXT = {"none": None, "plain": 'target: "tgt"', "comma": 'target: "a,b;c"', "escquote": 'target: "x\\"y"',
-               "parens": 'target: "f(x)"'}
+               "parens": 'target: "f(x)"',
+               # the log crate takes any expression as target
+               "const": "target: TGT", "macrocall": "target: module_path!()", "concat": 'target: concat!("store", "::disk")',
+               "fmtexpr": 'target: &format!("{}{}", "x, ", "y; z")'}
 
 KV_TEXT = {
     "int": "{k} = 1", "id": "{k} = x", "str": '{k} = "s"', "strsemi": '{k} = "a;b,c"', "short": "x",
